@@ -62,3 +62,84 @@ Print Assumptions C02_no_lot_overspent.
 Print Assumptions C02_only_events.
 Print Assumptions C02_income_once.
 Print Assumptions C02_sell_all.
+
+(** * From the rows: the same statements for a history BUILT FROM INPUT ROWS, in terms of transactions.
+    [built_history sched h t] (Proofs/ComputeTotal.v; spelled out in Properties/C01.v, C01_order_from_rows): the well-formedness of
+    the matcher input is derived from hypotheses about the rows.  [lot_balance fs a] = crypto_in of the acquisition [a] minus the
+    fractions of [fs] taken from it; [distinct_row_ids h]: row ids pairwise distinct across the three tables (what the parser
+    guarantees); [acquired_by t T] = total crypto_in of the acquisitions made at or before the instant [T]; [disposed l] = total
+    amount leaving the holder through the disposals (non-income taxable events) of [l]  (Model/FromRowsSpec.v). *)
+From RP2V Require Import Base.Sorting Model.Txn Model.Pipeline Model.FromRowsSpec Proofs.L4Examples Proofs.ComputeTotal
+  Proofs.ComputeTotalExamples Proofs.FromRows Proofs.FromRowsExamples.
+
+Theorem C02_fractions_positive_from_rows : forall sched h t, built_history sched h t ->
+  forall fs, fractions_of gen_always_repush sched t = Ok fs -> forall f, In f fs -> 0 < f_amt f.
+Proof. exact positive_from_rows. Qed.
+
+(** per taxable event the fractions sum exactly to the amount it moves: a disposal's amount plus its crypto fee, a transfer's
+    fee, an income event's amount -- the latter as exactly one lot-less fraction *)
+Theorem C02_event_fully_covered_from_rows : forall sched h t, built_history sched h t ->
+  forall fs evs, fractions_of gen_always_repush sched t = Ok fs -> taxable_events t = Ok evs ->
+  forall x, In x evs ->
+    ev_taken fs (t_row x) = t_balance_change x /\
+    match x with
+    | TIn a => t_balance_change x = i_crypto_in a /\
+               filter (frac_of_ev (i_row a)) fs = [{| f_ev := i_row a; f_lot := None; f_amt := i_crypto_in a |}]
+    | TOut o => t_balance_change x = o_crypto_out_with_fee o
+    | TIntra i => t_balance_change x = x_crypto_fee i
+    end.
+Proof. exact event_covered_from_rows. Qed.
+
+(** no acquisition is overspent after any prefix of the fractions *)
+Theorem C02_no_lot_overspent_from_rows : forall sched h t, built_history sched h t ->
+  forall fs, fractions_of gen_always_repush sched t = Ok fs ->
+  forall k a, In a (t_ins t) -> 0 <= lot_balance (firstn k fs) a /\ lot_taken (firstn k fs) (i_row a) <= i_crypto_in a.
+Proof. exact no_lot_overspent_from_rows. Qed.
+
+(** fractions belong to taxable events only, lot-less exactly for income; the lot of a fraction is an acquisition of the history
+    made at or before the instant of the disposal *)
+Theorem C02_fractions_belong_from_rows : forall sched h t, built_history sched h t ->
+  forall fs evs, fractions_of gen_always_repush sched t = Ok fs -> taxable_events t = Ok evs ->
+  forall f, In f fs ->
+    exists x, In x evs /\ t_row x = f_ev f /\ (f_lot f = None <-> t_is_earning x = true) /\
+              forall lr, f_lot f = Some lr -> exists a, In a (t_ins t) /\ i_row a = lr /\ in_us a <= t_us x.
+Proof. exact fractions_belong_from_rows. Qed.
+
+(** the matching succeeds or fails with "lots exhausted" -- nothing else; it fails exactly when, at some disposal [x] (after the
+    events [p]), the acquisitions made up to its instant do not cover the disposals up to and including it -- whatever the method *)
+Theorem C02_outcome_from_rows : forall sched h t, built_history sched h t -> distinct_row_ids h ->
+  exists evs, taxable_events t = Ok evs /\
+    ((exists fs, fractions_of gen_always_repush sched t = Ok fs) \/ fractions_of gen_always_repush sched t = Err EExhausted) /\
+    (fractions_of gen_always_repush sched t = Err EExhausted <->
+     exists p x r, evs = p ++ x :: r /\ t_is_earning x = false /\ acquired_by t (t_us x) < disposed (p ++ [x])).
+Proof. exact outcome_from_rows. Qed.
+
+(** sell-all: the history plus one final disposal row [r] (at the end of the OUT table, dated after every row of the history) of
+    exactly the remaining holding is matched -- the earlier fractions unchanged -- and leaves every acquisition exactly exhausted *)
+Theorem C02_sell_all_from_rows : forall sched h t fs r t2 o,
+  built_history sched h t -> fractions_of gen_always_repush sched t = Ok fs ->
+  built_history sched (with_final_out h r) t2 -> distinct_row_ids (with_final_out h r) ->
+  all_rows_before h (utc_us (ro_ts r)) ->
+  mk_out r = Ok o -> o_crypto_out_with_fee o = sumZ (map (lot_balance fs) (t_ins t)) ->
+  t_ins t2 = t_ins t /\
+  exists fs', fractions_of gen_always_repush sched t2 = Ok (fs ++ fs') /\
+              (forall a, In a (t_ins t2) -> lot_balance (fs ++ fs') a = 0).
+Proof. exact sell_all_from_rows. Qed.
+
+(** non-vacuity (Proofs/FromRowsExamples.v): history A is a [built_history] with distinct row ids; history B (buy 1, sell 2, buy 5)
+    is one too and fails with the failing prefix exhibited; history A plus a final sale of the remaining 2.8 coins is exhausted *)
+Theorem C02_from_rows_nonvacuous :
+  built_history schedA hA tA /\ distinct_row_ids hA /\ fractions_of gen_always_repush schedA tA = Ok fsA /\
+  (built_history schedA hB tB /\ distinct_row_ids hB /\ fractions_of gen_always_repush schedA tB = Err EExhausted /\
+   exists evs p x r, taxable_events tB = Ok evs /\ evs = p ++ x :: r /\ t_is_earning x = false /\ acquired_by tB (t_us x) < disposed (p ++ [x])) /\
+  (t_ins tA_all = t_ins tA /\
+   exists fs', fractions_of gen_always_repush schedA tA_all = Ok (fsA ++ fs') /\ forall a, In a (t_ins tA_all) -> lot_balance (fsA ++ fs') a = 0).
+Proof. exact c02_from_rows_nonvacuous. Qed.
+
+Print Assumptions C02_fractions_positive_from_rows.
+Print Assumptions C02_event_fully_covered_from_rows.
+Print Assumptions C02_no_lot_overspent_from_rows.
+Print Assumptions C02_fractions_belong_from_rows.
+Print Assumptions C02_outcome_from_rows.
+Print Assumptions C02_sell_all_from_rows.
+Print Assumptions C02_from_rows_nonvacuous.
